@@ -50,10 +50,34 @@ CAUGHT = {
  'C07r2-m2': ('./check C07', 'isolation: recycled payload scribble (added after this seed escaped) shows the message was assembled after its slices were recycled'),
  'C09r2-m1': ('./check C09', 'leak with three-buffer messages (added after this seed escaped)'),
  'C09r2-m2': ('./check C09', 'callback-mode ledger after close (added after this seed escaped): 1 buffer still allocated'),
- 'C10r2-m1': (None, 'pending'),
+ 'C10r2-m1': ('./check C11', 'blocked-forever: callback-mode read waiter (reader blocked inside OnData, peer close) added after this seed escaped'),
  'C10r2-m2': ('./check C07', 'event: handleEvents consumed 0 of 12 (also C13); C10 itself does not judge partial consumption'),
  'C20r2-m1': ('./check C20', 'invented / ledger in statement-granular interleavings (added after this seed escaped)'),
  'C20r2-m2': ('./check C20', 'not-serial'),
+ 'C02r2-m1': ('./check C02', 'BufMgr level with no slack behind the last class (added after this seed escaped): quiescent-size'),
+ 'C02r2-m2': ('./check C09', 'not-returned-after-close after ReleaseReadAndReuse (also ./check C15 leak-buffers); the allocator-level C02 check does not contain the reset-while-held step'),
+ 'C03r2-m1': ('./check C03', 'peer derives a different layout (unaligned slice sizes)'),
+ 'C03r2-m2': ('./check C03', 'queue layout unsound with odd capacities'),
+ 'C08r2-m1': ('./check C08', 'view-invalidated: recycled payload scribble shows the implicit release by Stream.Read'),
+ 'C08r2-m2': ('./check C06', 'bytes: fallback payload aliases the reused read buffer (same change as C06r2-m2; also C07, C13); ./check C08 itself holds no fallback view across a second socket message'),
+ 'C11r2-m1': ('./check C05', 'stranded (check-then-store in markNotWorking; same site as C05-m1); C11 sees no blocked call because its waiters do not share a queue with a second producer'),
+ 'C11r2-m2': ('./check C18', 'dispatch/stranded-writer: coalesced IN|OUT epoll event on the real dispatcher (EventConnDispatch.tla, added after this seed escaped)'),
+ 'C12r2-m1': ('./check C12', 'newSession does not return (also ./check C11 blocked-forever)'),
+ 'C12r2-m2': ('./check C12', 'census: mappings left behind after a failed handshake'),
+ 'C13r2-m1': ('./check C13', 'handshake goroutine panics on a body ending at the queue path'),
+ 'C13r2-m2': ('./check C13', 'process dies on a hot-restart event for a session without manager/listener'),
+ 'C14r2-m1': ('./check C14', 'panic in writer call sequences after teardown (Reserve x2; sequences added after this seed escaped)'),
+ 'C14r2-m2': ('./check C14', 'panic: Flush parked in the queue-full retry loop at peer death (staged scenarios added after this seed escaped)'),
+ 'C15r2-m1': ('./check C15', 'see checks/streampool_NOTES.md (callback-mode PutBack during OnData; HEAD fixed by c48bdfd makes this change harmless for the leak)'),
+ 'C15r2-m2': ('./check C15', 'see checks/streampool_NOTES.md (statement-granular PutBack/GetStream interleaving added after this seed escaped)'),
+ 'C16r2-m1': ('./check C16', 'second hot restart after a time-out reported done without notifying'),
+ 'C16r2-m2': ('./check C16', 'not-healed after a timed-out restart (also ./check C17)'),
+ 'C17r2-m1': ('./check C17', 'close-hangs / not-healed: rebuild whose first attempt fails (WRetry step added after this seed escaped)'),
+ 'C17r2-m2': ('./check C17', 'manager-stuck: restart event while the new server refuses connections (added after this seed escaped)'),
+ 'C18r2-m1': ('./check C18', 'pipe/callback-argument and panic in doWritev'),
+ 'C18r2-m2': ('./check C18', 'dispatch/stranded-writer (EventConnDispatch.tla, added after this seed escaped)'),
+ 'C19r2-m1': ('./check C19', 'walk: bytes lost by a Read straddling two messages (also ./check C06)'),
+ 'C19r2-m2': ('./check C19', 'conc: concurrent Close of one conn releases two session references (added after this seed escaped)'),
  'C19-m1': ('./check C19', 'late-stream probe (added after this seed escaped)'),
  'C19-m2': ('./check C07', 'order across transports; C19 itself does not stage the fallback/refill interleaving'),
  'C20-m1': ('./check C20', 'stranded (fine-grained random interleavings, added after this seed escaped)'),
